@@ -267,7 +267,32 @@ func genWarrior(tp *simrt.Tape, M uint64, maxLen int) ref.Warrior {
 	}
 	w := ref.Warrior{}
 	for i := 0; i < n; i++ {
-		w.Code = append(w.Code, genIns(tp, M))
+		ins := genIns(tp, M)
+		if i > 0 && tp.Draw("war.nearcopy", 4) == 0 {
+			// a copy of an earlier cell with ONE attribute changed: whole-
+			// instruction comparisons (.I) only differ in such pairs
+			ins = w.Code[tp.Draw("war.nearcopy.of", i)]
+			switch tp.Draw("war.nearcopy.what", 7) {
+			case 0:
+				ins.Mod = ref.Mod((int(ins.Mod) + 1 + tp.Draw("war.nearcopy.mod", int(ref.NumMods)-1)) % int(ref.NumMods))
+			case 1:
+				ins.Op = ref.Op((int(ins.Op) + 1 + tp.Draw("war.nearcopy.op", int(ref.NumOps)-1)) % int(ref.NumOps))
+			case 2:
+				ins.AMode = ref.Mode((int(ins.AMode) + 1 + tp.Draw("war.nearcopy.am", int(ref.NumModes)-1)) % int(ref.NumModes))
+			case 3:
+				ins.BMode = ref.Mode((int(ins.BMode) + 1 + tp.Draw("war.nearcopy.bm", int(ref.NumModes)-1)) % int(ref.NumModes))
+			case 4:
+				ins.A = (ins.A + 1) % M
+			case 5:
+				ins.B = (ins.B + 1) % M
+			}
+		}
+		w.Code = append(w.Code, ins)
+	}
+	if n > 1 && tp.Draw("war.comparer", 6) == 0 {
+		// make sure something compares two cells of the warrior as wholes
+		k := tp.Draw("war.comparer.at", n)
+		w.Code[k] = ref.Ins{Op: []ref.Op{ref.SNE, ref.SEQ, ref.CMP}[tp.Draw("war.comparer.op", 3)], Mod: ref.MI, AMode: ref.Direct, A: uint64(1+tp.Draw("war.comparer.a", n)) % M, BMode: ref.Direct, B: uint64(1+tp.Draw("war.comparer.b", n)) % M}
 	}
 	if n > 0 {
 		w.Start = tp.Draw("war.start", n)
